@@ -50,7 +50,9 @@ THEOREMS = [P_ + n for n in (
     'parse_container', 'condMeansInt_eq',
     # round 4: reuse sessions (memory model: which array a call writes to)
     'parseInput_keeps_dataset', 'call_keeps_dataset', 'session_calls_independent',
-    'session_call_value')]
+    'session_call_value',
+    # round 5: scale laws of the formulas and of the coded estimators
+    'centre_scale', 'distSpec_scale', 'distVec_scale')]
 RULE = ('one PRNG drives everything. A case is one calc_rdm / calc_rdm_movie call: dataset(s) of '
         '2-14 observations x 1-6 channels with values that are small integers or eighths, int or '
         'str labels (balanced or not, shuffled), extra obs descriptors (constant / varying within '
@@ -70,8 +72,15 @@ RULE = ('one PRNG drives everything. A case is one calc_rdm / calc_rdm_movie cal
         'remove_mean=True first in 3 of 4), with and without the condition descriptor, bare, as [ds] and as '
         'a list of both; every call is judged against the model / the formula on the case\'s original exact '
         'numbers and the objects must be bit-identical (measurements and all descriptors) after every '
-        'call. Non-trivial = at least 2 conditions and not all '
-        'dissimilarities equal; distinct = distinct (kind, method, options, data, variant).')
+        'call. Value scales (24 % of all calls, sessions included): the same call in another unit - '
+        'every channel multiplied by an exact power of two 2^e, e in -60..+40: tiny (one e in -60..-20, '
+        'e.g. MEG in tesla), huge (one e in +20..+40; integer data stay integer as int64 / int32 / int16 '
+        'where they fit, also e in 6..14 for narrow integers), mixed (per-channel exponents: independent, '
+        'jittered gains around a tiny unit, or two sensor types orders of magnitude apart); precision '
+        'matrices rescaled by 2^k (k = 0, the whitening exponent, or random in -40..40), the Poisson prior '
+        'rate by the unit of a channel; the case holds the scaled numbers as exact rationals and all '
+        'tolerances are relative to the natural magnitude U of the result. Non-trivial = at least 2 conditions and not all '
+        'dissimilarities equal (relative to U); distinct = distinct (kind, method, options, data, variant).')
 BRANCHES = ['desc:none', 'desc:given', 'avg:yes', 'avg:no', 'noise:none', 'noise:matrix',
             'noise:list', 'list:labelled', 'list:unlabelled', 'list:single', 'list:missing', 'list:aligned',
             'movie:nobins', 'movie:bins', 'movie:singleton_bin', 'movie:list', 'movie:nodesc',
@@ -95,12 +104,22 @@ BRANCHES = ['desc:none', 'desc:given', 'avg:yes', 'avg:no', 'noise:none', 'noise
             'session:list_then_single', 'session:list_step', 'session:two_datasets',
             'session:method_changes', 'session:remove_mean_changes', 'session:bins_change',
             'session:later_euclidean', 'session:later_correlation', 'session:later_mahalanobis',
-            'session:later_poisson', 'session:steps_2', 'session:steps_4']
+            'session:later_poisson', 'session:steps_2', 'session:steps_4',
+            # round 5: value scales (data in another unit: exact powers of two per channel)
+            'scale:tiny', 'scale:huge', 'scale:mixed', 'scale:euclidean', 'scale:correlation',
+            'scale:mahalanobis', 'scale:poisson', 'scale:precision', 'scale:int', 'scale:int_narrow',
+            'scale:remove_mean', 'scale:nodesc', 'scale:kind_single', 'scale:kind_list',
+            'scale:kind_movie', 'scale:session', 'session:scale_tiny', 'session:scale_huge',
+            'session:scale_mixed']
 ASSUMPTIONS = [
     'float32 measurements (reuse sessions only) are computed with in single precision by the library: '
     'tolerance 1e-4 relative / 2e-5 absolute there',
-    'float64 evaluation of either side is within 1e-9 relative / 1e-12 absolute of the exact value '
-    '(inputs are small integers / eighths, well-conditioned by construction)',
+    'float64 evaluation of either side is within 1e-9 relative / 1e-12 * U absolute of the exact value '
+    '(inputs are small integers / eighths times exact powers of two, well-conditioned by construction; '
+    'U = natural magnitude of the result: 1 for ordinary data and for correlation, max_c 4^e_c for squared '
+    'distances (times 2^k for a rescaled precision), about 2^e_max (1 + 0.7 max|e|) for poisson); the '
+    'oracle uses 1e-8 / 1e-11 * U for the formula and 1e-11 / 1e-13 * U for the scale laws (scaling by a '
+    'power of two commutes with + - * / sqrt in binary floating point, so both sides round identically)',
     'correlation is only asked for condition means that are not constant across channels; poisson '
     'only for positive regularised rates (the formulas are undefined otherwise)',
     'every bin selects at least one time point; without a condition descriptor repeated time '
@@ -647,6 +666,8 @@ def _subcase(case, i):
         var['dtype'], var['np_dtype'] = 'float', 'float32'
     var['wrap'] = st.get('wrap', 'single')
     sub = {'kind': st['kind'], 'P': case['P'], 'variant': var, 'in_session': True}
+    if case.get('scale'):
+        sub['scale'] = case['scale']
     for k in ('method', 'noise', 'pl', 'pw', 'remove_mean', 'opts_given'):
         sub[k] = st[k]
     sub['datasets'] = [{'X': case['datasets'][k]['X'],
@@ -659,30 +680,211 @@ def _subcase(case, i):
     return sub
 
 
+# ------------------------------------------------------------------ value scales (round 5)
+# Every generated call can be re-expressed in another unit: each channel multiplied by an exact
+# power of two 2^e_c, e_c in -60 .. +40 (MEG in tesla is ~1e-13 .. 1e-15; raw counts are ~1e9).
+#   tiny   all channels the same e in -60 .. -20
+#   huge   all channels the same e in +20 .. +40 (integer data stay integer: int64 / int32)
+#   mixed  per-channel exponents (independent, or jittered gains around a tiny unit, or two sensor
+#          types many orders of magnitude apart)
+# The case carries the scaled numbers as exact rationals, so model (exact / Float on the same
+# doubles), library and oracle all work on the same input; powers of two make the scaled doubles
+# exact.  A precision matrix is rescaled by 2^k (k = 0, the whitening exponent -2e, or random), the
+# Poisson prior rate by the unit of one channel (priors are then passed explicitly).  `scale`
+# records the exponents; it is used for the natural magnitude U of the result (tolerances are
+# RELATIVE: atol = 1e-12 * U), for the coverage tags and by the oracle's scale-law check.
+
+SCALE_SHARE = 0.24
+
+
+def _draw_exps(rng, P, cls):
+    if cls == 'tiny':
+        return [rng.choice([-60, -50, -43, -33, -20, rng.randint(-60, -20)])] * P
+    if cls == 'huge':
+        return [rng.choice([40, 32, 31, 20, rng.randint(20, 40)])] * P
+    r = rng.random()
+    if r < 0.4:
+        ex = [rng.randint(-60, 40) for _ in range(P)]
+    elif r < 0.7:                       # one tiny unit, per-channel gains
+        base = rng.randint(-60, -30)
+        ex = [base + rng.randint(0, 8) for _ in range(P)]
+    else:                               # two sensor types
+        lo, hi = rng.randint(-60, -20), rng.randint(-10, 40)
+        ex = [rng.choice([lo, hi]) for _ in range(P)]
+        ex[0], ex[-1] = lo, hi
+    if len(set(ex)) == 1:
+        ex[0] -= 7
+    return ex
+
+
+def _mul_x(x, e):
+    return rat(fr(x) * F(2) ** e)
+
+
+def _scale_noise(nz, k):
+    if nz is None or k == 0:
+        return nz
+    out = dict(nz)
+    if 'one' in nz:
+        out['one'] = [[_mul_x(v, k) for v in row] for row in nz['one']]
+    else:
+        out['per'] = [None if m is None else [[_mul_x(v, k) for v in row] for row in m]
+                      for m in nz['per']]
+    return out
+
+
+def _opt_holders(case):
+    """the dicts that carry method / noise / pl of a case (the case itself, or a session's steps)"""
+    return case['steps'] if case['kind'] == 'session' else [case]
+
+
+def _rescaled(case, exps, k, g, cls):
+    """the same call with channel c multiplied by 2^exps[c], precisions by 2^k, Poisson prior
+    rates by 2^g"""
+    c = json.loads(json.dumps(case))
+    temporal = case['kind'] == 'movie' or case.get('temporal')
+    for ds in c['datasets']:
+        if temporal:
+            ds['X'] = [[[_mul_x(v, exps[ch]) for v in row] for ch, row in enumerate(ob)]
+                       for ob in ds['X']]
+        else:
+            ds['X'] = [[_mul_x(v, exps[ch]) for ch, v in enumerate(row)] for row in ds['X']]
+    for h in _opt_holders(c):
+        h['noise'] = _scale_noise(h['noise'], k)
+        if h['method'] == 'poisson' and g != 0:
+            h['pl'] = _mul_x(h['pl'], g)
+            h['opts_given'] = True
+    var = c['variant']
+    if var['dtype'] == 'int' and not _all_int(c['datasets']):
+        var['dtype'] = 'float'
+    if var['dtype'] == 'float32':
+        var['dtype'] = 'float'       # 2^-60 squared leaves the single-precision range
+    c['scale'] = {'class': cls, 'exps': list(exps), 'noise_exp': k, 'pl_exp': g}
+    return c
+
+
+def _corr_valid(case):
+    """correlation is defined for every pattern the call will see (no constant row / condition mean)"""
+    if case['kind'] == 'session':
+        return all(_corr_valid(_subcase(case, i)) for i in range(len(case['steps'])))
+    if case['method'] != 'correlation':
+        return True
+    if case['P'] < 2:
+        return False
+    for ds in case['datasets']:
+        if case['kind'] == 'movie':
+            X3 = [[[fr(v) for v in ch] for ch in ob] for ob in ds['X']]
+            bins = None if case['bins'] is None else [[fr(x) for x in b] for b in case['bins']]
+            if not _movie_ok(X3, ds['labels'], [fr(t) for t in case['times']], bins):
+                return False
+        else:
+            X = [[fr(v) for v in row] for row in ds['X']]
+            rows = list(_cond_means(X, ds['labels']).values()) if ds['labels'] is not None else X
+            if _const_rows(rows):
+                return False
+    return True
+
+
+def _scale_case(rng, case, cls=None):
+    """re-express a generated case in another unit (see the section comment)"""
+    P = case['P']
+    cls = cls or rng.choice(['tiny', 'huge', 'mixed'])
+    if P == 1 and cls == 'mixed':
+        cls = rng.choice(['tiny', 'huge'])
+    holders = _opt_holders(case)
+    has_none = any(isinstance(h['noise'], dict) and 'per' in h['noise']
+                   and any(m is None for m in h['noise']['per']) for h in holders)
+    for attempt in range(12):
+        exps = _draw_exps(rng, P, cls)
+        if cls == 'huge' and _all_int(case['datasets']) and rng.random() < 0.3:
+            exps = [rng.randint(6, 14)] * P      # large for int16 / int32 measurements
+        mid = sorted(exps)[len(exps) // 2]
+        k = 0 if has_none else rng.choice([0, -2 * mid, -2 * mid, rng.randint(-40, 40)])
+        g = exps[0] if cls != 'mixed' else rng.choice(exps)
+        c = _rescaled(case, exps, k, g, cls)
+        if _corr_valid(c):
+            break
+    else:
+        exps = [-43] * P
+        c = _rescaled(case, exps, 0, -43, 'tiny')
+    var = c['variant']
+    if var['dtype'] == 'int':
+        top = max(abs(int(fr(v))) for ds in c['datasets'] for v in _flat(ds['X']))
+        fits = [w for w in (64, 32, 16) if top < 2 ** (w - 1)]
+        var['int_width'] = rng.choice(fits)
+    return c
+
+
+def _flat(x):
+    for y in x:
+        if isinstance(y, list):
+            yield from _flat(y)
+        else:
+            yield y
+
+
+def _unit(case):
+    """natural magnitude U of the values of a (sub-)case: tolerances are relative to it"""
+    sc = case.get('scale')
+    if not sc:
+        return 1.0
+    m, emax = case['method'], max(sc['exps'])
+    if m == 'correlation':
+        return 1.0
+    if m == 'euclidean' or (m == 'mahalanobis' and case['noise'] is None):
+        return 4.0 ** emax
+    if m == 'mahalanobis':
+        return 4.0 ** emax * 2.0 ** sc['noise_exp']
+    top = max(emax, sc['pl_exp'])
+    return 2.0 ** top * (1 + 0.7 * max([abs(e) for e in sc['exps']] + [abs(sc['pl_exp'])]))
+
+
+def _descaled(case):
+    """(base case, factor per method) of a scaled case: the common factor 2^g (g = largest channel
+    exponent) removed from the data, 2^k from the precisions, 2^g from the Poisson prior rate;
+    the laws say result(case) = factor * result(base)"""
+    sc = case['scale']
+    g, k = max(sc['exps']), sc['noise_exp']
+    base = _rescaled(case, [-g] * case['P'], -k, -g, sc['class'])
+    base['scale'] = {'class': sc['class'], 'exps': [e - g for e in sc['exps']], 'noise_exp': 0,
+                     'pl_exp': sc['pl_exp'] - g}
+    base['variant'].pop('int_width', None)
+    return base, {'euclidean': 4.0 ** g, 'correlation': 1.0, 'poisson': 2.0 ** g,
+                  'mahalanobis': 4.0 ** g * 2.0 ** k, 'mahalanobis_none': 4.0 ** g}
+
+
 def generate(rng, tier):
     n = 1500 if tier == 'quick' else 90000
     for i in range(n):
         r = rng.random()
         if r < 0.04:
             yield gen_unique(rng)
+            continue
         elif r < 0.48:
-            yield gen_single(rng)
+            case = gen_single(rng)
         elif r < 0.71:
-            yield gen_list(rng)
+            case = gen_list(rng)
         elif r < 0.89:
-            yield gen_movie(rng)
+            case = gen_movie(rng)
         else:
-            yield gen_session(rng)
+            case = gen_session(rng)
+        if rng.random() < SCALE_SHARE:
+            case = _scale_case(rng, case)
+        yield case
 
 
 def search(rng, tier):
-    """failing-input search: the ordinary stream with every third case a reuse session"""
+    """failing-input search: the ordinary stream with every third case a reuse session and every
+    third case in another unit (tiny / huge / mixed value scales)"""
     gen = generate(rng, 'thorough')
     k = 0
     while True:
         k += 1
         if k % 3 == 0:
             yield gen_session(rng)
+        elif k % 3 == 1:
+            c = next(gen)
+            yield c if c['kind'] == 'unique' or c.get('scale') else _scale_case(rng, c)
         else:
             yield next(gen)
 
@@ -701,7 +903,7 @@ def _build(case, ds, k, temporal=False):
     if not temporal:
         X = X.reshape(len(ds['X']), case['P'])
     if var['dtype'] == 'int':
-        X = X.astype(np.int64)
+        X = X.astype({16: np.int16, 32: np.int32}.get(var.get('int_width'), np.int64))
     elif var.get('np_dtype') == 'float32':
         X = X.astype(np.float32)     # small integers / eighths are exact in float32
     descs = {name: list(v) for name, v in ds['descs'].items()}
@@ -1130,7 +1332,7 @@ def _same_stack(case, a, b):
         for x, y in zip(va, vb):
             if (x is None) != (y is None):
                 return False
-            if x is not None and x != y and not close(_dec(case, x), _dec(case, y), RTOL, ATOL):
+            if x is not None and x != y and not close(_dec(case, x), _dec(case, y), *_tol(case)):
                 return False
     ra, rb = _rdesc_rows(a, len(a['vecs'])), _rdesc_rows(b, len(b['vecs']))
     return ra == rb
@@ -1233,7 +1435,8 @@ def _tol(case, oracle_side=False):
     averaged in float32 (np.mean of float32 rows): single precision tolerances there"""
     if case.get('variant', {}).get('np_dtype') == 'float32':
         return (1e-4, 2e-5)
-    return (1e-8, 1e-11) if oracle_side else (RTOL, ATOL)
+    u = _unit(case)         # 1 unless the case is in another unit (round 5): atol is relative to U
+    return (1e-8, 1e-11 * u) if oracle_side else (RTOL, ATOL * u)
 
 
 def _step_name(case, i):
@@ -1291,8 +1494,9 @@ def compare(case, impl, model):
         got = impl.get('means')
         if got is None or sorted(got) != sorted(model['means']):
             return f"condition means of int data: impl {got} != model {model['means']}"
+        m_atol = ATOL * 2.0 ** max(case['scale']['exps']) if case.get('scale') else atol
         for c, row in model['means'].items():
-            if len(got[c]) != len(row) or any(not close(x, y, rtol, atol) for x, y in zip(got[c], row)):
+            if len(got[c]) != len(row) or any(not close(x, y, rtol, m_atol) for x, y in zip(got[c], row)):
                 return f'condition mean of {c} (int data): impl {got[c]} != model {row}'
     return None
 
@@ -1333,6 +1537,8 @@ def _session_features(case, impl):
         br.append('session:two_datasets')
     for st in steps[1:]:
         br.append('session:later_' + st['method'])
+    if case.get('scale'):
+        br += ['scale:session', 'session:scale_' + case['scale']['class']]
     exc = None
     if isinstance(impl, dict) and 'steps' in impl:
         exc = next((s_['exc'] for s_ in impl['steps'] if 'exc' in s_), None)
@@ -1342,6 +1548,7 @@ def _session_features(case, impl):
             'opts_given': bool(first['opts_given']), 'bins': False, 'dtype': var['dtype'],
             'desc_type': var['desc_type'], 'n_obs': len(case['datasets'][0]['X']),
             'n_steps': len(steps), 'temporal': bool(case['temporal']), 'layout': var['layout'],
+            'scale': case['scale']['class'] if case.get('scale') else 'none',
             'exc': exc, 'branches': sorted(set(br))}
 
 
@@ -1435,6 +1642,19 @@ def features(case, impl):
         br.append('priors:given' if case['opts_given'] else 'priors:default')
     if isinstance(nz, dict) and 'per' in nz and any(m is None for m in nz['per']):
         br.append('noise:list_none')
+    sc = case.get('scale')
+    if sc and not case.get('in_session'):
+        br += ['scale:' + sc['class'], 'scale:' + case['method'], 'scale:kind_' + case['kind']]
+        if case['method'] == 'mahalanobis' and nz is not None and sc['noise_exp'] != 0:
+            br.append('scale:precision')
+        if var['dtype'] == 'int':
+            br.append('scale:int')
+            if var.get('int_width') in (16, 32):
+                br.append('scale:int_narrow')
+        if case['remove_mean']:
+            br.append('scale:remove_mean')
+        if not labelled:
+            br.append('scale:nodesc')
     if any('params' in ds['ddesc'] for ds in dss):
         br.append('ddesc:vector')
     if len({frozenset(ds['ddesc']) for ds in dss}) > 1:
@@ -1459,6 +1679,9 @@ def features(case, impl):
             and case.get('tform', {}).get('bins_type') == 'list',
             'bins_other_time_descriptor': case['kind'] == 'movie' and case.get('bins') is not None
             and case.get('tname') != 'time',
+            'scale': sc['class'] if sc else 'none',
+            'scale_min_exp': min(sc['exps']) if sc else 0, 'scale_max_exp': max(sc['exps']) if sc else 0,
+            'int_width': var.get('int_width', 64) if var['dtype'] == 'int' else 0,
             'exc': impl.get('exc') if isinstance(impl, dict) else None,
             'branches': sorted(set(br))}
 
@@ -1474,8 +1697,9 @@ def nontrivial_key(case, impl):
             else None
     if not isinstance(impl, dict) or 'exc' in impl:
         return ['exc', json.dumps(case, sort_keys=True, default=str)]
+    u = _unit(case)
     vals = [v for r in impl['rdms'] for v in r['values'].values() if v is not None]
-    if len(impl['conds']) < 2 or len({round(v, 9) for v in vals}) < 2 and len(vals) > 1:
+    if len(impl['conds']) < 2 or len({round(v / u, 9) for v in vals}) < 2 and len(vals) > 1:
         return None
     return json.dumps(case, sort_keys=True, default=str)
 
@@ -1590,12 +1814,70 @@ def oracle(case):
                         'expected': want.index(lkey(lab)), 'features': feats}
         return None
     if case['kind'] == 'session':
-        return _oracle_session(case)
+        o = _oracle_session(case)
+        return o or (_oracle_scale_law(case) if case.get('scale') else None)
     try:
         rdms = call_library(case)
     except Exception as exc:  # noqa: BLE001
         rdms = exc
-    return _oracle_result(case, rdms)
+    o = _oracle_result(case, rdms)
+    if o or not case.get('scale'):
+        return o
+    return _oracle_scale_law(case, rdms)
+
+
+LAW_TEXT = {'euclidean': 'result(s X) = s^2 result(X)', 'correlation': 'result(s X) = result(X)',
+            'mahalanobis': 'result(s X, t N) = t s^2 result(X, N)',
+            'poisson': 'result(s X, s prior_lambda) = s result(X, prior_lambda)'}
+
+
+def _oracle_scale_law(case, rdms=None):
+    """the property's formulas fix how each value responds to a change of unit; judge that
+    directly: the same call on the data with the common factor 2^g removed (exact in binary
+    floating point), times the factor the formula dictates.  Rounding is identical on both sides
+    (scaling by a power of two commutes with + - * / sqrt), so the tolerance is far below the one
+    of the formula check: only log (poisson) sees the factor at all."""
+    base, factors = _descaled(case)
+    if case['kind'] == 'session':
+        got = [(sub, res) for sub, res, _d in run_session(case)[0]]
+        ref = [(sub, res) for sub, res, _d in run_session(base)[0]]
+    else:
+        try:
+            ref_res = call_library(base)
+        except Exception as exc:  # noqa: BLE001
+            ref_res = exc
+        got, ref = [(case, rdms)], [(base, ref_res)]
+    for i, ((sub, a), (bsub, b)) in enumerate(zip(got, ref)):
+        if isinstance(a, Exception) or isinstance(b, Exception):
+            if isinstance(a, Exception) != isinstance(b, Exception):
+                return {'what': 'the call succeeds in one unit of the data and raises in another',
+                        'observed': repr(a)[:120], 'expected': repr(b)[:120], 'scale': case['scale'],
+                        'features': {'symptom': 'scale-law', 'scale': case['scale']['class']}}
+            continue
+        ca, cb = canon_impl(sub, a), canon_impl(bsub, b)
+        if 'exc' in ca or 'exc' in cb or ca['conds'] != cb['conds'] or len(ca['rdms']) != len(cb['rdms']):
+            continue
+        m = sub['method']
+        f = factors['mahalanobis_none'] if m == 'mahalanobis' and sub['noise'] is None else factors[m]
+        u = _unit(sub)
+        for k, (ra, rb) in enumerate(zip(ca['rdms'], cb['rdms'])):
+            for pk in sorted(ra['values']):
+                x, y = ra['values'][pk], rb['values'].get(pk)
+                if x is None or y is None:
+                    continue
+                if not close(x, f * y, 1e-11, 1e-13 * u):
+                    where = f'RDM {k}, pair {pk}'
+                    if case['kind'] == 'session':
+                        where = _step_name(case, i) + '; ' + where
+                    return {'what': f'{m} value does not follow the scale law of its formula when the '
+                                    f'data are expressed in another unit ({LAW_TEXT[m]})',
+                            'where': where, 'observed': x,
+                            'expected': f * y, 'same_call_on_rescaled_data': y, 'factor': f,
+                            'relative_error': abs(x - f * y) / max(abs(f * y), 1e-300),
+                            'scale': case['scale'],
+                            'features': {'symptom': 'scale-law', 'scale': case['scale']['class'],
+                                         'method': m}}
+    return None
 
 
 def _oracle_session(case):
